@@ -1,4 +1,5 @@
-// VARIANTS: rel
+// VARIANTS: sch
+// (variant sch: the library is compiled with mc/atomic_hook.h force-included, so that every std::atomic of the library is a scheduling point too)
 // C14 - concurrent queries are race-free and gwb-grid output does not depend on -j.
 //  (a) partition: the real ThreadPool::parallel_for for every (n, threads): every index visited exactly once
 //  (b) sched:     all schedules with <= k preemptions of worker threads (real ThreadPool + real World) under a
@@ -125,17 +126,20 @@ namespace
   }
 
   // ---------- (b) schedules ----------
-  struct Config { int workers, nodes, bound; bool spherical; };
+  // world 0: three overlapping features, every node another point. world 1: an oceanic plate with the 'plate model' cooling model, the nodes visit
+  // every column twice in a row (an application evaluates a point once per field): whatever a model remembers of its last column is then re-used
+  struct Config { int workers, nodes, bound; bool spherical; int world = 0; };
   // one unit of work: the root schedule of a configuration, or the complete subtree below one first deviation from it
   struct Unit { size_t cfg; int point; int alt; };
   // world for the schedule exploration: three overlapping features (5 scheduling points per query)
-  std::string sched_world(bool sph)
+  std::string sched_world(bool sph, int kind = 0)
   {
     const double s = sph ? 1.0 : 1e5;
     auto sq = [&](double x0, double x1, double y0, double y1) { return pts({{x0*s,y0*s},{x1*s,y0*s},{x1*s,y1*s},{x0*s,y1*s}}); };
     std::vector<std::string> f;
     f.push_back("{\"model\":\"oceanic plate\",\"name\":\"OP\",\"max depth\":1e5,\"coordinates\":" + sq(-5,5,-5,5) +
-                ",\"temperature models\":[{\"model\":\"linear\",\"max depth\":1e5,\"top temperature\":280,\"bottom temperature\":1600}]"
+                ",\"temperature models\":[" + (kind == 1 ? "{\"model\":\"plate model\",\"max depth\":1e5,\"top temperature\":280,\"bottom temperature\":1600,\"spreading velocity\":0.04,\"ridge coordinates\":[[" + pt({4.5*s,-6*s}) + "," + pt({4.5*s,6*s}) + "]]}"
+                                           : std::string("{\"model\":\"linear\",\"max depth\":1e5,\"top temperature\":280,\"bottom temperature\":1600}")) + "]"
                 ",\"composition models\":[{\"model\":\"uniform\",\"compositions\":[1,0],\"fractions\":[0.75,0.25]}]"
                 ",\"grains models\":[" + worlds::uniform_grains("[0,1]", 2, 25) + "]"
                 ",\"velocity models\":[{\"model\":\"uniform raw\",\"velocity\":[0.06,-0.01,0.002]}]}");
@@ -155,8 +159,15 @@ namespace
   const size_t NODE_PROBE[6] = {61, 97, 140, 13, 200, 150};
 
   // node i: even nodes use the 3-D interface, odd nodes the 2-D interface (different request lists everywhere)
-  std::vector<double> node_query(const WorldBuilder::World &w, bool sph, const std::vector<worlds::Probe> &probes, const std::vector<worlds::Probe2> &probes2, size_t i)
+  std::vector<double> node_query(const WorldBuilder::World &w, bool sph, const std::vector<worlds::Probe> &probes, const std::vector<worlds::Probe2> &probes2, size_t i, int kind = 0)
   {
+    if (kind == 1)
+      {
+        // columns inside the oceanic plate (depths 2e4 / 8e4), each visited twice in a row
+        static const size_t COL[4] = {1, 37, 73, 109};
+        const auto &pr = probes[COL[(i / 2) % 4] + (i % 2)];
+        return w.properties(query_point(sph, pr.x, pr.y, pr.depth), pr.depth, NODE_REQ[(i / 2) % 6]);
+      }
     if (i % 2 == 0)
       {
         const auto &pr = probes[NODE_PROBE[i % 6]];
@@ -176,7 +187,7 @@ namespace
     std::function<void()> body;
     explicit SchedHarness(const Config &c) : cf(c)
     {
-      text = sched_world(cf.spherical);
+      text = sched_world(cf.spherical, cf.world);
       file = write_world_file(text, "s");
       probes = worlds::lattice(cf.spherical);
       probes2 = worlds::lattice2(cf.spherical);
@@ -185,7 +196,7 @@ namespace
       // the sequential answers: every node in a brand-new thread, so that nothing a thread keeps between two queries (thread-local scratch) can shape them
       WorldBuilder::World w(file, false, "", 1, true);
       for (int i = 0; i < cf.nodes; ++i)
-        std::thread([&, i]() { seq[static_cast<size_t>(i)] = node_query(w, cf.spherical, probes, probes2, static_cast<size_t>(i)); }).join();
+        std::thread([&, i]() { seq[static_cast<size_t>(i)] = node_query(w, cf.spherical, probes, probes2, static_cast<size_t>(i), cf.world); }).join();
       body = [this]()
       {
         // a brand-new world for every execution: executions are independent and replayable
@@ -195,7 +206,7 @@ namespace
         ThreadPool pool(static_cast<size_t>(cf.workers));
         pool.parallel_for(0, static_cast<size_t>(cf.nodes), [&](size_t i)
         {
-          got[i] = node_query(wx, cf.spherical, probes, probes2, i);
+          got[i] = node_query(wx, cf.spherical, probes, probes2, i, cf.world);
           completion.push_back(static_cast<int>(i));
         });
       };
@@ -291,10 +302,12 @@ namespace
     else
       {
         // the TSan build of the real tool on the repository's own grid set-ups, 4 threads
-        const char *g[] = {"2d_cartesian_plume", "3d_plume_tip", "fault", "subducting_plate_manual3", "composition_operations"};
+        // (the last two once more with the filter options, whose extra passes over the nodes and cells run after / inside the parallel loop)
+        const char *g[] = {"2d_cartesian_plume", "3d_plume_tip", "fault", "subducting_plate_manual3", "composition_operations", "3d_plume_tip", "composition_operations"};
         const std::string base = g[idx-1];
+        const std::string filter = idx >= 6 ? "--filtered --by-tag " : "";
         const std::string dir = G().rundir + "/tsangrid" + std::to_string(idx);
-        cmd = "mkdir -p " + dir + " && cd " + dir + " && TSAN_OPTIONS='halt_on_error=0 exitcode=66' /verif/build/tsan/bin/gwb-grid -j 4 /repo/tests/gwb-grid/" + base + ".wb /repo/tests/gwb-grid/" + base + ".grid";
+        cmd = "mkdir -p " + dir + " && cd " + dir + " && TSAN_OPTIONS='halt_on_error=0 exitcode=66' /verif/build/tsan/bin/gwb-grid -j 4 " + filter + "/repo/tests/gwb-grid/" + base + ".wb /repo/tests/gwb-grid/" + base + ".grid";
       }
     const int rc = system((cmd + " > " + log + " 2>&1").c_str());
     const std::string out = read_tail(log, 200000);
@@ -320,7 +333,7 @@ namespace
 
   // ---------- (d) -j independence of the real tool ----------
   struct Grid { const char *name; const char *text; bool spherical; int world = 0; };   // world 1: mass conserving slabs with splines of different sizes
-  const int NGRIDS = 11;
+  const int NGRIDS = 12;
   const Grid GRIDS[NGRIDS] =
   {
     {"c2_3x3", "grid_type = cartesian\ndim = 2\ncompositions = 3\nvtu_output_format = ASCII\nx_min = -450e3\nx_max = 350e3\nz_min = 400e3\nz_max = 1000e3\nn_cell_x = 3\nn_cell_z = 3\n", false},
@@ -334,6 +347,7 @@ namespace
     // more than 1024 nodes (a pool may treat short loops differently), and slabs whose thermal model keeps a workspace (two spline sizes in one world)
     {"c3_10x10x10", "grid_type = cartesian\ndim = 3\ncompositions = 2\nvtu_output_format = ASCII\nx_min = -450e3\nx_max = 450e3\ny_min = -300e3\ny_max = 300e3\nz_min = 500e3\nz_max = 1000e3\nn_cell_x = 10\nn_cell_y = 10\nn_cell_z = 10\n", false, 0},
     {"c3_splines_12x9x8", "grid_type = cartesian\ndim = 3\ncompositions = 2\nvtu_output_format = ASCII\nx_min = -480e3\nx_max = 420e3\ny_min = -350e3\ny_max = 460e3\nz_min = 650e3\nz_max = 1000e3\nn_cell_x = 12\nn_cell_y = 9\nn_cell_z = 8\n", false, 1},
+    {"chunk3_fine_over_depth_surfaces", "grid_type = chunk\ndim = 3\ncompositions = 2\nvtu_output_format = ASCII\nx_min = -3\nx_max = -2\ny_min = -0.06\ny_max = 0.06\nz_min = 6151e3\nz_max = 6371e3\nn_cell_x = 25\nn_cell_y = 3\nn_cell_z = 4\n", true, 2},
     {"c2_splines_40x12", "grid_type = cartesian\ndim = 2\ncompositions = 2\nvtu_output_format = ASCII\nx_min = 0\nx_max = 900e3\nz_min = 650e3\nz_max = 1000e3\nn_cell_x = 40\nn_cell_z = 12\n", false, 1},
   };
   std::string slurp(const std::string &p) { std::ifstream f(p, std::ios::binary); std::stringstream ss; ss << f.rdbuf(); return ss.str(); }
@@ -342,6 +356,7 @@ namespace
     (void)!system(("rm -rf " + dir + " && mkdir -p " + dir).c_str());
     worlds::Opt o; o.spherical = g.spherical; o.cross_section = true;
     if (g.world == 1) { o.slab_model = 2; o.second_slab = true; }
+    if (g.world == 2) o.depth_points = true;     // columns 0.04 degrees apart over depth surfaces given at points
     { std::ofstream f(dir + "/w.wb"); f << worlds::rich(o); }
     { std::ofstream f(dir + "/g.grid"); f << g.text; }
     const std::string cmd = "cd " + dir + " && /verif/build/rel/bin/gwb-grid -j " + std::to_string(j) + " --filtered --by-tag w.wb g.grid > out.log 2>&1";
@@ -396,7 +411,7 @@ int main(int argc, char **argv)
   spec.rule = "partition: every (n, thread count) pair in the stated range through the real ThreadPool::parallel_for; sched: for each harness configuration ALL schedules with at most k preemptions "
               "(iterative context bounding over the yield hooks in World::properties plus interposed pthread_create/join), every execution on a brand-new world, results compared bit-for-bit with "
               "the sequential answers, one recorded schedule replayed and required to reproduce; tsan: the same bodies free-running in the ThreadSanitizer build; jindep: the real gwb-grid for every "
-              "-j in 1..40 on 11 grids, all output files byte-identical to -j 1. non-trivial: more than one thread / more than one observed completion order";
+              "-j in 1..40 on 12 grids, all output files byte-identical to -j 1. non-trivial: more than one thread / more than one observed completion order";
   spec.assumptions = {"scheduling points: pthread_create, pthread_join, thread exit and the three GWB_VERIF_YIELD sites of World::properties; code between two points runs atomically under the scheduler, "
                       "unsynchronised accesses inside such a stretch are the job of the free-running TSan pass", "sequential consistency (the scheduler serialises threads); weaker memory orderings are covered only by TSan's happens-before analysis",
                       "worlds without random models"
@@ -432,8 +447,8 @@ int main(int argc, char **argv)
     }
     {
       auto cfgs = std::make_shared<std::vector<Config>>();
-      if (!th) *cfgs = {{2, 2, 2, false}, {2, 3, 2, false}, {2, 4, 2, true}, {3, 3, 1, false}, {3, 4, 1, true}, {2, 2, 3, true}};
-      else *cfgs = {{2, 2, 3, false}, {2, 3, 3, false}, {2, 4, 3, true}, {3, 3, 3, false}, {3, 4, 2, true}, {3, 6, 2, false}, {2, 2, 4, true}, {4, 4, 2, false}, {2, 6, 2, true}};
+      if (!th) *cfgs = {{2, 2, 2, false}, {2, 3, 2, false}, {2, 4, 2, true}, {3, 3, 1, false}, {3, 4, 1, true}, {2, 2, 3, true}, {2, 4, 2, false, 1}, {2, 4, 2, true, 1}};
+      else *cfgs = {{2, 2, 3, false}, {2, 3, 3, false}, {2, 4, 3, true}, {3, 3, 3, false}, {3, 4, 2, true}, {3, 6, 2, false}, {2, 2, 4, true}, {4, 4, 2, false}, {2, 6, 2, true}, {2, 4, 3, false, 1}, {2, 4, 3, true, 1}, {3, 6, 2, false, 1}};
       auto units = std::make_shared<std::vector<Unit>>(make_units(*cfgs));
       Suite a; a.name = "sched"; a.n = units->size(); a.run = [cfgs, units](uint64_t i, Ctx &c) { run_sched(*cfgs, *units, i, c); };
       a.watchdog_s = 1600;
@@ -443,14 +458,14 @@ int main(int argc, char **argv)
       s.push_back(a);
     }
     {
-      Suite a; a.name = "tsan"; a.n = 6; a.run = [th](uint64_t i, Ctx &c) { run_tsan(th, i, c); };
+      Suite a; a.name = "tsan"; a.n = 8; a.run = [th](uint64_t i, Ctx &c) { run_tsan(th, i, c); };
       a.watchdog_s = 900;
-      a.bound = "TSan build: 8 threads x rounds on brand-new worlds (all feature types, 2-D and 3-D, repeated points) + TSan gwb-grid -j 4 on 5 repository grids";
+      a.bound = "TSan build: 8 threads x rounds on brand-new worlds (all feature types, 2-D and 3-D, repeated points) + TSan gwb-grid -j 4 on 5 repository grids, two of them also with --filtered --by-tag";
       s.push_back(a);
     }
     {
       Suite a; a.name = "jindep"; a.n = NGRIDS*40; a.run = run_jindep;
-      a.bound = "11 grids (cartesian/chunk/annulus/sphere, 2-D/3-D, 4..1331 nodes; two on a world with mass conserving slabs using splines of different sizes) x every -j in 1..40, with --filtered --by-tag";
+      a.bound = "12 grids (cartesian/chunk/annulus/sphere, 2-D/3-D, 4..1331 nodes; two on a world with mass conserving slabs using splines of different sizes) x every -j in 1..40, with --filtered --by-tag";
       s.push_back(a);
     }
     return s;
